@@ -399,7 +399,8 @@ def evaluate(expr, ctx: Ctx, tol: Tol, comp=()) -> EV:
                 raise Unsupported(f"coefficient data has {w.shape[0]} dofs, element has {n}")
             tv = it.table(vals)  # (P, n)
             v = tv.v @ w
-            e = tv.e @ np.abs(w) + it.u * (np.abs(tv.v) @ np.abs(w))
+            # a dot product of n terms accumulated in working precision: worst case n*u*sum|terms| in any order
+            e = tv.e @ np.abs(w) + n * it.u * (np.abs(tv.v) @ np.abs(w))
             return EV(pts(v), pts(e))
         if isinstance(t, Constant):
             fc = int(np.ravel_multi_index(comp, t.ufl_shape)) if t.ufl_shape else 0
@@ -418,7 +419,7 @@ def evaluate(expr, ctx: Ctx, tol: Tol, comp=()) -> EV:
             T = tabulate(cel, X, len(dd))[basix.index(*counts)][:, :, 0]  # (P, nodes)
             xs = np.asarray(ctx.x[r])[:, i]
             v = T @ xs
-            e = it.u * (np.abs(T) @ np.abs(xs)) * 2.0
+            e = it.u * (np.abs(T) @ np.abs(xs)) * (T.shape[1] + 1.0)
             return EV(pts(v), pts(e))
         if isinstance(t, QuadratureWeight):
             return it.data(pts(ctx.weights))
@@ -683,6 +684,9 @@ def integral_rule(integral, itype, cellname, entity, argument_elements):
     return np.asarray(pts), np.asarray(wts), etype
 
 
+LAST = {"nacc": 1}  # number of += steps the kernel performs per entry in the last form_reference call
+
+
 def form_reference(
     form,
     coef_data,
@@ -714,6 +718,7 @@ def form_reference(
     A = np.zeros(shape, dtype=np.complex128 if cm else np.float64)
     E = np.zeros(shape, dtype=np.float64)
     found = False
+    nacc = 0
     for itd in fd.integral_data:
         if itd.integral_type != itype:
             continue
@@ -746,13 +751,16 @@ def form_reference(
                 ctx.X = Xs
             val = evaluate(itg.integrand(), ctx, tol)
             P = len(wts)
+            nacc += P
             full = (P,) + tuple(shape) + (1,) * (2 - len(shape))
             v = np.broadcast_to(val.v, full)
             e = np.broadcast_to(val.e, full)
             A = A + v.sum(axis=0).reshape(shape)
-            E = E + e.sum(axis=0).reshape(shape) + tol.u * np.abs(v).sum(axis=0).reshape(shape)
+            # accumulation over P quadrature points (any summation order): P*u*sum|terms|
+            E = E + e.sum(axis=0).reshape(shape) + P * tol.u * np.abs(v).sum(axis=0).reshape(shape)
     if not found:
         return None, None
+    LAST["nacc"] = max(nacc, 1)
     if diagonal and len(shape) == 2:
         A = np.diagonal(A).copy()
         E = np.diagonal(E).copy()
